@@ -304,7 +304,14 @@ def _call(x):
     """Top-level trampoline (picklable); harness exceptions are returned, not raised."""
     try:
         return _FN(x)
-    except Exception:
+    except Exception as e:
+        # an exception that escapes a driver: raised inside library code (innermost frame under the repository's source tree or
+        # its compiled modules) it is an observation about the implementation that the driver failed to record as such - reported
+        # as a violation, not as a failure of the machinery; raised in the harness itself it is a harness bug
+        frames = traceback.extract_tb(e.__traceback__)
+        inner = frames[-1].filename if frames else ""
+        if "/chmpy/" in inner and "/verif/" not in inner:
+            return {"__impl_error__": traceback.format_exc()[-1500:], "meta": {"recipe": x}}
         return {"__harness_error__": traceback.format_exc(), "meta": {"recipe": x}}
 
 
@@ -355,6 +362,9 @@ def pool_map(fn, items, procs=None, chunksize=None):
                     break
             raise ImplementationCrash(culprit)
     for t in out:
+        if isinstance(t, dict) and "__impl_error__" in t:
+            raise ImplementationCrash({"unrecorded_exception": t["__impl_error__"], "recipe": t["meta"]["recipe"]})
+    for t in out:
         if isinstance(t, dict) and "__harness_error__" in t:
             raise tlc.TLCFailure("harness driver failed:\n" + t["__harness_error__"])
     return out
@@ -389,7 +399,7 @@ def main(pid, run_fn, replay_fn=None):
     except ImplementationCrash as e:
         # the interpreter died inside library code while this input was driven: a verdict on the implementation, with evidence
         ctx.violation("ImplementationCrash", {"meta": {"recipe": e.recipe, "nontrivial": True}})
-        ctx.notes["implementation_crash"] = "a worker process died (no Python exception) while driving the implementation; the remaining inputs of this run were not judged"
+        ctx.notes["implementation_crash"] = "a worker process died, or an exception raised inside library code escaped the driver; the remaining inputs of this run were not judged"
         return ctx.finish()
     except tlc.TLCFailure as e:
         print("MACHINERY-FAILURE %s: %s" % (pid, e))
